@@ -541,7 +541,12 @@ class Executor(ExprMixin, StmtMixin, Engine):
                 raise OutOfSubset('builtin %s' % name, node)
 
     def ev_sorted(self, st, lst, node):
-        raise OutOfSubset('sorted', node)
+        key = None
+        if isinstance(lst.t, TList) and isinstance(lst.t.elem, TRef):
+            key = 'builtin:sorted#' + lst.t.elem.cls
+        if key is None or key not in self.m.contracts:
+            raise OutOfSubset('sorted() without a contract for this element type', node)
+        yield from self.call_contract(st, self.m.contracts[key], [lst], {}, node)
 
     def ev_anyall(self, name, gen, node, st):
         """any/all over a generator.  The element expression is evaluated once at a symbolic
